@@ -31,14 +31,15 @@ FindingNames == {"copyReadsPassive",     \* CopyToPassiveFolders looks the store
                  "ffNotIdempotent",      \* fastForward applies logs blindly: re-adding a copied handle is an error,
                                          \* an older logged record overwrites a newer replicated one
                  "createFailsOnPassive", \* a passive failure in StoreRepository.Add fails the creation
-                 "failoverNotDurable"}   \* failover writes the old toggler; a fresh process may pick the old folder
+                 "failoverNotDurable",   \* failover writes the old toggler; a fresh process may pick the old folder
+                 "copyFailsOnDroppedStore"} \* a store dropped while the copy runs makes copyStores fail
 
 VARIABLES fold,     \* [1..2 -> [list, info, reg]]
           mem,      \* [failed, act, logging]            GlobalReplicationDetails of the driver process
           l2,       \* [failed, act, logging]            copy in the L2 cache
           rs,       \* [1..2 -> [present, failed, act, logging]]   replstat.txt per folder
           newer,    \* 0, 1, 2: folder whose replstat.txt has the newest mtime
-          txn,      \* [Txns -> [st, failed, act, logging]]
+          txn,      \* [Txns -> [st, failed, act, logging, created]]
           logs,     \* sequence of change sets (commit-change logs, oldest first)
           cinfo,    \* [1..2 -> [Stores -> info]]        store infos in the L2 cache, keyed by base folder
           rein,     \* [pc, todo]                        ReinstateFailedDrives in progress
@@ -53,20 +54,22 @@ Lids(R)   == {h.lid : h \in R}
 EmptyFold == [list |-> {}, info |-> [s \in Stores |-> NoInfo], reg |-> [s \in Stores |-> {}]]
 NoRS      == [present |-> FALSE, failed |-> FALSE, act |-> 1, logging |-> FALSE]
 Det(f, a, l) == [failed |-> f, act |-> a, logging |-> l]
+NoTxn     == [st |-> "idle", failed |-> FALSE, act |-> 1, logging |-> FALSE, created |-> {}]
 Has(f)    == f \in Findings
 Use(f, c) == IF c THEN used \cup {f} ELSE used
 
 Init == /\ fold = [i \in 1..2 |-> EmptyFold]
         /\ mem = Det(FALSE, 1, FALSE) /\ l2 = Det(FALSE, 1, FALSE)
         /\ rs = [i \in 1..2 |-> NoRS] /\ newer = 0
-        /\ txn = [t \in Txns |-> [st |-> "idle", failed |-> FALSE, act |-> 1, logging |-> FALSE]]
+        /\ txn = [t \in Txns |-> NoTxn]
         /\ logs = <<>> /\ cinfo = [i \in 1..2 |-> [s \in Stores |-> NoInfo]]
         /\ rein = [pc |-> "idle", todo |-> <<>>]
         /\ content = [s \in Stores |-> {}] /\ used = {}
 
 -----------------------------------------------------------------------------
 (* Registry arithmetic.  A handle record is [lid, img]: logical id, full image.  A store info is
-   [c, r]: count, everything else (timestamp included).  A change c = [s, info, add, set, rem]: new store info and the
+   [c, r]: count, everything else (timestamp included); a commit rewrites (and replicates, and logs) the info of a
+   store only when its count changed: field ic of a change.  A change c = [s, info, add, set, rem]: new store info and the
    handle records that appeared, changed, vanished in the active registry of store s.                          *)
 ApplyActive(R, c) == {h \in R : h.lid \notin Lids(c.set) \cup Lids(c.rem)} \cup c.add \cup c.set
 
@@ -80,11 +83,13 @@ SetStore(f, s, i, R) == [f EXCEPT !.info[s] = i, !.reg[s] = R]
 
 \* apply a set of changes (different stores) to a folder
 ApplyAll(f, chs, passive) ==
-  [f EXCEPT !.info = [s \in Stores |-> IF \E c \in chs : c.s = s THEN (CHOOSE c \in chs : c.s = s).info ELSE f.info[s]],
+  [f EXCEPT !.info = [s \in Stores |-> IF \E c \in chs : c.s = s /\ c.ic THEN (CHOOSE c \in chs : c.s = s).info ELSE f.info[s]],
             !.reg  = [s \in Stores |-> IF \E c \in chs : c.s = s
                                       THEN LET c == CHOOSE c \in chs : c.s = s
                                            IN IF passive THEN ApplyPassive(f.reg[s], c) ELSE ApplyActive(f.reg[s], c)
                                       ELSE f.reg[s]]]
+RemoveStores(f, S) == [f EXCEPT !.list = @ \ S, !.info = [s \in Stores |-> IF s \in S THEN NoInfo ELSE @[s]],
+                                !.reg = [s \in Stores |-> IF s \in S THEN {} ELSE @[s]]]
 AnyConflict(f, chs) == \E c \in chs : Conflict(f.reg[c.s], c)
 
 \* logical content
@@ -121,7 +126,8 @@ StatusWritten(u) ==
 Begin(t) ==
   /\ txn[t].st = "idle"
   /\ mem' = Pulled
-  /\ txn' = [txn EXCEPT ![t] = [st |-> "open", failed |-> Pulled.failed, act |-> Pulled.act, logging |-> Pulled.logging]]
+  /\ txn' = [txn EXCEPT ![t] = [st |-> "open", failed |-> Pulled.failed, act |-> Pulled.act, logging |-> Pulled.logging,
+                                 created |-> {}]]
   /\ UNCHANGED <<fold, l2, rs, newer, logs, cinfo, rein, content, used>>
 
 \* NewBtreeWithReplication of a store that does not exist: StoreRepository.Add (+ fileIO.replicate, which does not
@@ -136,7 +142,8 @@ Create(t, sn, s, info, ok, pf) ==
                                      ![p] = [@ EXCEPT !.list = fold[a].list \cup {s}, !.info[s] = info]]
              /\ cinfo' = [cinfo EXCEPT ![a][s] = info]
              /\ used' = Use("staleSnapshot", sn # Cur)
-             /\ UNCHANGED <<mem, l2, rs, newer, txn>>
+             /\ txn' = [txn EXCEPT ![t].created = @ \cup {s}]
+             /\ UNCHANGED <<mem, l2, rs, newer>>
           \/ \* design: the passive failure turns replication off, the creation stands
              /\ pf # "none" /\ ok
              /\ fold' = [fold EXCEPT ![a] = [@ EXCEPT !.list = @ \cup {s}, !.info[s] = info, !.reg[s] = {}]]
@@ -144,13 +151,19 @@ Create(t, sn, s, info, ok, pf) ==
              /\ mem' = Det(TRUE, a, Pulled.logging) /\ l2' = mem'
              /\ WriteRS(a, mem')
              /\ StatusWritten(Use("staleSnapshot", sn # Cur))
-             /\ UNCHANGED txn
-          \/ \* code: Add returns the error, NewBtree removes the store again and rolls the transaction back
+             /\ txn' = [txn EXCEPT ![t].created = @ \cup {s}]
+          \/ \* code: Add returns the error, NewBtree removes the store again and rolls the transaction back, which
+             \* also removes (on both sides) every store the transaction had created before
              /\ Has("createFailsOnPassive") /\ pf # "none" /\ ~ok
-             /\ fold' = [fold EXCEPT ![p] = [@ EXCEPT !.list = IF pf = "store-file" THEN fold[a].list ELSE @]]
+             /\ LET cr == txn[t].created
+                    na == RemoveStores(fold[a], cr)
+                    np == RemoveStores(fold[p], cr \cup {s})
+                IN fold' = [fold EXCEPT ![a] = na,
+                                        ![p] = [np EXCEPT !.list = IF pf = "store-file" THEN na.list ELSE fold[p].list]]
+             /\ cinfo' = [cinfo EXCEPT ![a] = [x \in Stores |-> IF x \in txn[t].created THEN NoInfo ELSE @[x]]]
              /\ txn' = [txn EXCEPT ![t].st = "done"]
-             /\ used' = used \cup {"createFailsOnPassive"}
-             /\ UNCHANGED <<mem, l2, rs, newer, cinfo>>
+             /\ used' = used \cup ({"createFailsOnPassive"} \cup IF sn # Cur THEN {"staleSnapshot"} ELSE {})
+             /\ UNCHANGED <<mem, l2, rs, newer>>
   /\ UNCHANGED <<logs, rein, content>>
 
 (* Commit.  chs: set of changes (one per touched store) of the active registry/catalogue, ws: logical work,
@@ -199,23 +212,23 @@ Drop(s, ok, pf) ==
 \* the failed passive drive is replaced by an empty one (environment)
 Wipe ==
   /\ mem.failed
+  /\ UNCHANGED <<mem, l2, txn, logs, cinfo, rein, content>>
   /\ LET p == Other(mem.act) IN
      /\ fold' = [fold EXCEPT ![p] = EmptyFold]
      /\ rs' = [rs EXCEPT ![p] = NoRS]
      /\ newer' = IF newer = p THEN (IF rs[mem.act].present THEN mem.act ELSE 0) ELSE newer
-  /\ UNCHANGED <<mem, l2, txn, logs, cinfo, rein, content, used>>
+  /\ StatusWritten(used)
 
 \* fs.TriggerFailover.  Nothing happens when replication is already off (the passive side is stale).  The status
-\* file written into the new active folder must make a fresh process choose that folder; the code always writes
-\* the toggler as it was BEFORE the switch, which readStatusFromHomeFolder undoes only when the old active folder
-\* has no status file.
+\* file goes into the new active folder with the toggler as it was BEFORE the switch; readStatusFromHomeFolder
+\* undoes that only when the old active folder has no status file (StatusWritten records when it does not).
 Failover(ok) ==
   /\ ok
   /\ IF Pulled.failed
      THEN mem' = Pulled /\ UNCHANGED <<l2, rs, newer, used>>
      ELSE LET o == Pulled.act  n == Other(Pulled.act) IN
           /\ mem' = Det(TRUE, n, Pulled.logging) /\ l2' = mem'
-          /\ \E w \in {o, n} : WriteRS(n, Det(TRUE, w, Pulled.logging)) /\ StatusWritten(used)
+          /\ WriteRS(n, Det(TRUE, o, Pulled.logging)) /\ StatusWritten(used)
   /\ UNCHANGED <<fold, txn, logs, cinfo, rein, content>>
 
 -----------------------------------------------------------------------------
@@ -266,6 +279,16 @@ ReinCopyStore(s) ==
            /\ used' = used \cup {"copyReadsPassive"}
   /\ rein' = [rein EXCEPT !.todo = Tail(@), !.pc = IF Len(rein.todo) = 1 THEN "copied" ELSE @]
   /\ UNCHANGED <<mem, l2, rs, newer, txn, logs, content>>
+
+\* code: copyFilesByExtension on the folder of a store that was dropped after the list was read fails the
+\* whole ReinstateFailedDrives (the design skips the store)
+ReinCopyFails(pafter) ==
+  /\ Has("copyFailsOnDroppedStore")
+  /\ rein.pc = "copying" /\ \E i \in 1..Len(rein.todo) : rein.todo[i] \notin fold[mem.act].list
+  /\ fold' = [fold EXCEPT ![Other(mem.act)] = pafter]
+  /\ rein' = [pc |-> "idle", todo |-> <<>>]
+  /\ used' = used \cup {"copyFailsOnDroppedStore"}
+  /\ UNCHANGED <<mem, l2, rs, newer, txn, logs, cinfo, content>>
 
 \* fastForward: every pending log, oldest first, applied to the passive side; store infos carry the cached count
 Patched(cs) == {[c EXCEPT !.info.c = IF cinfo[mem.act][c.s] # NoInfo THEN cinfo[mem.act][c.s].c ELSE c.info.c] : c \in cs}
@@ -365,6 +388,8 @@ AllR == {fold[i].info[s].r : i \in 1..2, s \in Stores} \cup {cinfo[i][s].r : i \
 FreshLid == Max(AllLids) + 1
 FreshR   == Max(AllR) + 1
 
+BudgetCD    == [begin |-> 2, create |-> 1, commit |-> 1, fail |-> 1, drop |-> 1, wipe |-> 0, failover |-> 0, reins |-> 1]
+BudgetTiny  == [begin |-> 2, create |-> 0, commit |-> 2, fail |-> 1, drop |-> 0, wipe |-> 0, failover |-> 0, reins |-> 1]
 BudgetQuick == [begin |-> 2, create |-> 0, commit |-> 2, fail |-> 1, drop |-> 0, wipe |-> 1, failover |-> 1, reins |-> 1]
 BudgetSmall == [begin |-> 2, create |-> 1, commit |-> 2, fail |-> 1, drop |-> 1, wipe |-> 1, failover |-> 1, reins |-> 1]
 BudgetLarge == [begin |-> 3, create |-> 1, commit |-> 3, fail |-> 1, drop |-> 1, wipe |-> 1, failover |-> 1, reins |-> 1]
@@ -375,7 +400,7 @@ Seeded == [EmptyFold EXCEPT !.list = {First}, !.info[First] = [c |-> 1, r |-> 1]
 MCInit == /\ fold = [i \in 1..2 |-> Seeded]
           /\ mem = Det(FALSE, 1, FALSE) /\ l2 = Det(FALSE, 1, FALSE)
           /\ rs = [i \in 1..2 |-> NoRS] /\ newer = 0
-          /\ txn = [t \in Txns |-> [st |-> "idle", failed |-> FALSE, act |-> 1, logging |-> FALSE]]
+          /\ txn = [t \in Txns |-> NoTxn]
           /\ logs = <<>> /\ cinfo = [i \in 1..2 |-> [s \in Stores |-> IF i = 1 /\ s = First THEN [c |-> 1, r |-> 1] ELSE NoInfo]]
           /\ rein = [pc |-> "idle", todo |-> <<>>]
           /\ content = [s \in Stores |-> {}] /\ used = {}
@@ -389,9 +414,9 @@ Note(rec) == mc' = [mc EXCEPT !.hist = Append(@, rec)]
 MCChanges(a) ==
   UNION {LET R == fold[a].reg[s]
              inf(n) == [c |-> n, r |-> FreshR]
-         IN {{[s |-> s, info |-> inf(Cardinality(R) + 1), add |-> {[lid |-> FreshLid, img |-> 1]}, set |-> {}, rem |-> {}]}}
-            \cup {{[s |-> s, info |-> inf(Cardinality(R)), add |-> {}, set |-> {[lid |-> h.lid, img |-> h.img + 1]}, rem |-> {}]} : h \in R}
-            \cup {{[s |-> s, info |-> inf(Cardinality(R) - 1), add |-> {}, set |-> {}, rem |-> {h}]} : h \in R}
+         IN {{[s |-> s, info |-> inf(Cardinality(R) + 1), ic |-> TRUE, add |-> {[lid |-> FreshLid, img |-> 1]}, set |-> {}, rem |-> {}]}}
+            \cup {{[s |-> s, info |-> fold[a].info[s], ic |-> FALSE, add |-> {}, set |-> {[lid |-> h.lid, img |-> h.img + 1]}, rem |-> {}]} : h \in R}
+            \cup {{[s |-> s, info |-> inf(Cardinality(R) - 1), ic |-> TRUE, add |-> {}, set |-> {}, rem |-> {h}]} : h \in R}
          : s \in fold[a].list}
 Kind(chs) == LET c == CHOOSE c \in chs : TRUE IN
              IF c.add # {} THEN "add" ELSE IF c.set # {} THEN "upd" ELSE "rem"
@@ -421,6 +446,7 @@ MCNext ==
   \/ \E s \in Stores : ReinCopyStore(s) /\ Note([a |-> "copystore", s |-> s])
   \/ \E r \in 1..2 : ReinFF(r) /\ Note([a |-> "ff"])
   \/ \E ph \in {"ff", "ff2"} : ReinFFFails(ph, fold[Other(mem.act)]) /\ Note([a |-> "reinfail"])
+  \/ ReinCopyFails(fold[Other(mem.act)]) /\ Note([a |-> "reinfail"])
   \/ ReinTurnOn /\ Note([a |-> "turnon"])
   \/ ReinDone /\ Note([a |-> "reindone"])
 
